@@ -89,7 +89,7 @@ func (b *fileTracedBackend) RenameNX(o, n string) error {
 	return err
 }
 func (b *fileTracedBackend) ListAll() ([]string, error) { return b.inner.ListAll() }
-func (b *fileTracedBackend) Close() error                { return nil }
+func (b *fileTracedBackend) Close() error               { return nil }
 
 func parseOps(s string) []opSpec {
 	var ops []opSpec
